@@ -304,6 +304,19 @@ func (w *c14World) kinds(E []string) []c14Kind {
 		add(c14Kind{"IteratorMatchingAnyOf[2 values, none present]/" + dir, rev, "", func([]string) []string { return nil }, func(tx *bbolt.Tx) ast.SetCursor {
 			return w.items.IteratorMatchingAnyOf(w.rolesIdx, []string{"zz", "yy"})(tx, !rev)
 		}})
+		// three values in every order (the values after the first are checked against each row's own, sorted, list)
+		for _, perm := range [][]string{{"all", "p", "q"}, {"all", "q", "p"}, {"p", "all", "q"}, {"p", "q", "all"}, {"q", "all", "p"}, {"q", "p", "all"}} {
+			perm := perm
+			add(c14Kind{fmt.Sprintf("IteratorMatchingAllOf[3 values in the order %v]/%s", perm, dir), rev, "", withRole("all", "p", "q"), func(tx *bbolt.Tx) ast.SetCursor {
+				return w.items.IteratorMatchingAllOf(w.rolesIdx, append([]string{}, perm...))(tx, !rev)
+			}})
+		}
+		add(c14Kind{"IteratorMatchingAllOf[3 values, the last one twice]/" + dir, rev, "", withRole("all", "p", "q"), func(tx *bbolt.Tx) ast.SetCursor {
+			return w.items.IteratorMatchingAllOf(w.rolesIdx, []string{"q", "p", "all", "all"})(tx, !rev)
+		}})
+		add(c14Kind{"IteratorMatchingAnyOf[3 values, descending]/" + dir, rev, "", anyRole("q", "p", "all"), func(tx *bbolt.Tx) ast.SetCursor {
+			return w.items.IteratorMatchingAnyOf(w.rolesIdx, []string{"q", "p", "all"})(tx, !rev)
+		}})
 		add(c14Kind{"IteratorMatchingAnyOf[0 values]/" + dir, rev, "", func([]string) []string { return nil }, func(tx *bbolt.Tx) ast.SetCursor { return w.items.IteratorMatchingAnyOf(w.rolesIdx, nil)(tx, !rev) }})
 		add(c14Kind{"ast.TreeSet.ToCursor/" + dir, rev, "", all, func(tx *bbolt.Tx) ast.SetCursor {
 			ts := ast.NewTreeSet(!rev)
